@@ -44,6 +44,9 @@ def run(tier, seed, rep):
         mc = ex.submit(model, tier)
         cands = SC.names_exhaustive(1)
         n0 = len(cands) + 1
+        from ..defs import variant, enum
+        cands.append(enum(n0, [variant("Kb"), variant("KB"), variant("Mb")], style="lowercase")); n0 += 1
+        cands.append(enum(n0, [variant("Low"), variant("Medium", ser=["High"]), variant("High"), variant("Nowhere", dis=True), variant("Max")], prefix="dir:", style="kebab-case")); n0 += 1
         cands += [SC.names_def(rng, n0 + k) for k in range(sz["sample"])]
         facts = pipe.domain_pass(cands, PROP)
         defs = [E for E in cands if in_domain(facts[E["id"]])]
